@@ -55,6 +55,8 @@ func execNetworkSimplex(g *graph.DGraph, params graph.Params) {
 		vbalance(g)
 	case 2:
 		p.hbalance(g)
+		// hbalance moves whole subtrees, possibly above layer 0
+		normalize(g)
 	}
 }
 
